@@ -60,7 +60,7 @@ pub fn check_writer(shape: &Shape, value: &Value, sched: &Sched, l: &mut Local) 
             return Err(fail("io", format!("{}: {:?}, writer received {} but the encoding is {}", who, r, hex(&w.accepted), hex(want)), cj()));
         }
         if w.flushes == 0 || w.writes_after_flush != 0 {
-            return Err(fail("io", format!("{}: flush calls = {}, writes after flush = {}", who, w.flushes, w.writes_after_flush), cj()));
+            return Err(fail("io", format!("{}: returned Ok but the data was not flushed through (flush calls = {}, write calls after the last flush = {})", who, w.flushes, w.writes_after_flush), cj()));
         }
         // failing flush
         l.eval();
@@ -467,6 +467,8 @@ pub fn run(ctx: &Ctx) {
          size, must fail below the borrowed total and succeed at the encoded length; with one length prefix replaced by a hostile value (usize::MAX-k, 2^63+k, 2^32, 2^16, len+k, k) the reader path answers like the slice path and never panics. non-trivial = fault strictly inside a message, \
          or >= 2 messages on one stream; distinct = hash(adapter, fault, stream, schedule)",
     );
+    ctx.assume("scratch demand of a message = its borrowed str/bytes payloads + 4/8 bytes per f32/f64 + 4 per char (what the decoder routes through the scratch buffer); a scratch of that size is taken to be large enough");
+    ctx.assume("to_io/to_eio returning Ok means the data was flushed through (at least one flush, no write after the last one)");
     ctx.assume("embedded-io forbids write() returning Ok(0) for non-empty input, so the eio writer double reports an error instead (EOF-style faults only on std::io::Write)");
     let n = ctx.tier.pick(20_000, 200_000);
     let scfg = ShapeCfg { depth: 3, ..ShapeCfg::default() };
